@@ -147,6 +147,7 @@ func errLine(tok string, B int) (content string, eol string) {
 
 type refRec struct {
 	any    bool // only "some single record" is required
+	either bool // debug or error: the line follows a panic trace interrupted by a line the property does not classify
 	level  hclog.Level
 	msg    string
 	kv     map[string]string // expected key -> fmt("%v") of value, plus "timestamp" presence
@@ -156,13 +157,20 @@ type refRec struct {
 // refStderr is the reference model: forwarded bytes and, for lines shorter
 // than the buffer, the expected log record.
 func refStderr(toks []string, B int, finalNL bool) (fwd []byte, recs []*refRec) {
-	panicMode := false
+	// panic-trace state: off, on, or undetermined (after a JSON object with wrongly typed hclog fields
+	// inside a trace: the statement does not say whether such a line ends the trace)
+	const (
+		off = iota
+		on
+		undetermined
+	)
+	panicMode := off
 	for _, t := range toks {
 		c, _ := errLine(t, B)
 		fwd = append(fwd, c...)
 		fwd = append(fwd, '\n')
 		if len(c)+2 > B {
-			recs = append(recs, nil) // long line: byte fidelity only
+			recs = append(recs, nil) // long line: byte fidelity only; it does not end a panic trace
 			continue
 		}
 		r := &refRec{}
@@ -172,34 +180,39 @@ func refStderr(toks []string, B int, finalNL bool) (fwd []byte, recs []*refRec) 
 			// JSON object whose @message/@level/@timestamp is not a string (or a bad timestamp): the
 			// property only demands that the host survives and forwards the line; one record of any shape
 			r.any = true
-			panicMode = false
+			if panicMode == on {
+				panicMode = undetermined
+			}
 		case isHclog:
 			r.level, r.msg, r.kv, r.isJSON = lvl, msg, kv, true
-			panicMode = false
+			panicMode = off
 		default:
 			r.msg = c
 			switch {
 			case strings.HasPrefix(c, "[TRACE]"):
-				r.level, panicMode = hclog.Trace, false
+				r.level, panicMode = hclog.Trace, off
 			case strings.HasPrefix(c, "[DEBUG]"):
-				r.level, panicMode = hclog.Debug, false
+				r.level, panicMode = hclog.Debug, off
 			case strings.HasPrefix(c, "[INFO]"):
-				r.level, panicMode = hclog.Info, false
+				r.level, panicMode = hclog.Info, off
 			case strings.HasPrefix(c, "[WARN]"):
-				r.level, panicMode = hclog.Warn, false
+				r.level, panicMode = hclog.Warn, off
 			case strings.HasPrefix(c, "[ERROR]"):
-				r.level, panicMode = hclog.Error, false
+				r.level, panicMode = hclog.Error, off
 			case strings.HasPrefix(c, "panic:"):
-				r.level, panicMode = hclog.Error, true
+				r.level, panicMode = hclog.Error, on
 			default:
 				r.level = hclog.Debug
-				if panicMode {
+				switch panicMode {
+				case on:
 					r.level = hclog.Error
+				case undetermined:
+					r.either = true
 				}
 				if refIsJSONObject(c) {
 					// valid JSON object without a usable hclog level: logged verbatim at debug, and it ends a panic trace
-					r.level = hclog.Debug
-					panicMode = false
+					r.level, r.either = hclog.Debug, false
+					panicMode = off
 				}
 			}
 		}
@@ -336,7 +349,9 @@ func init() {
 						if w.any {
 							continue
 						}
-						if g.level != w.level {
+						if w.either && (g.level == hclog.Debug || g.level == hclog.Error) {
+							// accepted
+						} else if g.level != w.level {
 							x.Fail("S", "line %d logged at %s, expected %s [%s]", i+1, g.level, w.level, desc)
 						}
 						if g.msg != w.msg {
@@ -383,6 +398,25 @@ func init() {
 							for c := 0; c < n; c++ {
 								add(B, []int{a, b, c}, "1")
 							}
+						}
+					}
+				}
+			}
+			if tier != "thorough" {
+				// quick: the triples that start a panic trace (state carried across lines): panic, any line, then a
+				// plain / trace-header / over-long / levelled line
+				idx := func(tok string) int {
+					for i, t := range errAlpha {
+						if t == tok {
+							return i
+						}
+					}
+					panic("no such token " + tok)
+				}
+				for _, B := range Bs {
+					for b := 0; b < n; b++ {
+						for _, c := range []string{"plain text line", "goroutine 1 [running]:", "LEN:B+1", "[INFO] i"} {
+							add(B, []int{idx("panic: boom"), b, idx(c)}, "1")
 						}
 					}
 				}
